@@ -58,7 +58,7 @@ func init() {
 			if tier == "thorough" {
 				return 20000
 			}
-			return 900
+			return 700
 		},
 		CaseTimeout: 60 * time.Second,
 	})
